@@ -50,12 +50,18 @@ class State:
         self.heap[ref] = o
         return o
 
-    def assume(self, c):
+    def assume(self, c, derived=False):
+        """derived=True: c is a consequence of what is already known (a proved obligation, a lemma instance whose premise was
+        proved) or the defining axiom of a fresh ghost function - it can be left out of a satisfiability query without changing
+        the answer (see solve.DERIVED)."""
         if c is True:
             return
         if self.guards:
             c = z3.Implies(z3.And(*self.guards), c)
         self.pc.append(c)
+        if derived:
+            from . import solve
+            solve.DERIVED[c.get_id()] = c   # the term is kept alive so that the id stays unique
 
     def full_pc(self):
         return self.pc + self.guards
